@@ -333,6 +333,48 @@ func (sc *c14Scenario) Run(s *simrt.Sim) {
 	if !s.WaitUntilTimeout(func() bool { return target.IsDone() }, time.Minute) {
 		sc.extra = append(sc.extra, Violation{Clause: "lifecycle", Fingerprint: "IsDone-after-return", Detail: "IsDone() still false long after the effect returned"})
 	}
+	// A second, unrelated generator is started with StartWithVal after requests have been served elsewhere (any
+	// recycled request envelope must come back clean), while a caller of the first pair still has a request to make
+	{
+		var genA, genB, cx *fpgo.CorDef[int]
+		x1, x2, inB, gate := -1, -1, -1, false
+		genA = fpgo.CorNewGenerics[int](func() {
+			genA.YieldRef(10)
+			genA.YieldRef(11)
+		})
+		cx = fpgo.CorNewGenerics[int](func() {
+			x1 = cx.YieldFrom(genA, 1)
+			for !gate {
+				s.Sleep(time.Microsecond)
+			}
+			x2 = cx.YieldFrom(genA, 2)
+		})
+		genB = fpgo.CorNewGenerics[int](func() { inB = genB.YieldRef(777) })
+		ep := s.Go("epilogue", func() {
+			h.Do("epilogue", "second-generator", nil, func() (interface{}, error) {
+				genA.Start()
+				cx.Start()
+				for x1 < 0 {
+					s.Sleep(time.Microsecond)
+				}
+				genB.StartWithVal(4242)
+				for inB < 0 {
+					s.Sleep(time.Microsecond)
+				}
+				gate = true
+				for x2 < 0 {
+					s.Sleep(time.Microsecond)
+				}
+				return nil, nil
+			})
+		})
+		if !s.WaitUntilTimeout(ep.Done, 10*time.Minute) {
+			sc.extra = append(sc.extra, Violation{Clause: "hang", Fingerprint: "second-generator-epilogue", Detail: fmt.Sprintf("generator A serving caller X, then generator B started with StartWithVal(4242): did not finish (x1=%d, B's first YieldRef got %d, x2=%d)", x1, inB, x2)})
+		} else if x1 != 10 || x2 != 11 || inB != 4242 {
+			sc.extra = append(sc.extra, Violation{Clause: "routing", Fingerprint: "value-of-an-unrelated-generator-misrouted", Detail: fmt.Sprintf("X asked A twice and got %d, %d (want 10, 11); in between, an unrelated generator B was started with StartWithVal(4242) and yielded 777: its first YieldRef returned %d (want 4242)", x1, x2, inB)})
+		}
+		sc.probes["second-generator-started-with-a-value-later"]++
+	}
 	// YieldFromIO returns the IO's value whatever the state of the coroutine object it is called on: here the
 	// target, whose effect has returned
 	{
